@@ -56,6 +56,8 @@ var universe = []typ{
 	// package of the helper, and an unexported type of the helper
 	{Key: "alias-of-internal", Type: "hp.AliasInt", Val: "hp.NewAliasInt(7)", OtherNm: "aliasInt2T"},
 	{Key: "alias-of-unexported", Type: "hp.AliasHid", Val: "hp.NewAliasHid(8)", OtherNm: "aliasHid2T"},
+	// a value type whose Discard has a pointer receiver (x*! elements are addressable)
+	{Key: "ptr-recv-discard", Type: "pdT", Val: "pdT{N: 3}", Discard: true},
 	// a local alias of a local type, and of an imported one
 	{Key: "alias-local", Type: "recAliasT", Val: `recAliasT{6, "a"}`, OtherNm: "rec2T"},
 	{Key: "alias-imported", Type: "durAliasT", Val: "durAliasT(5)", OtherNm: "myDurT"},
@@ -74,6 +76,10 @@ type recT struct {
 
 func (r recT) Discard() bool { return false }
 func (r recT) MA() int       { return r.A }
+
+type pdT struct{ N int }
+
+func (p *pdT) Discard() bool { return false }
 
 type ifaceA interface{ MA() int }
 type ifaceB interface{ MB() int }
